@@ -412,6 +412,13 @@ def execute(scenario, tape=None, keep_events=False):
     res.sim_time = sched.now
     res.steps = sched.steps
     res.tape = sched.tape_out
+    if aborted and (aborted == "step-cap" or aborted.startswith("deadlock")):
+        # no terminating execution of <= 16 messages needs 60000 scheduling steps: the node
+        # spins, or all its threads wait on each other for good
+        res.violations.append(Violation("no-progress", "node", f"{aborted} after {sched.steps} steps (typical run: a few hundred)").to_json())
+        res.digest = log.digest()
+        res.nontrivial = True
+        return res
     if aborted and not aborted.startswith("threads still running"):
         raise HarnessError(f"run aborted: {aborted}")
     if still_running:
